@@ -452,6 +452,13 @@ class Flow:
                         continue
                     if outer and name in ("insert", "entry", "remove", "get_mut", "or_insert", "or_default", "or_insert_with", "add", "get", "contains", "contains_key", "retain"):
                         if is_unordered_target(rty) or "Entry<" in rty:
+                            # map.insert(k', v') overwrites (last wins); entry(k').or_default() followed by an insert into the
+                            # inner collection is a commutative grouping and is not flagged
+                            if name == "insert" and len(args) == 3 and self.source_is_map and ("Map<" in strip_wrappers(rty).split("<")[0] + "<"):
+                                ks, vs = self.elem_sides(elem, loop, derived)
+                                ka = args[1]
+                                if ka in vs and ka not in ks:
+                                    self.issues.append(("loop-insert-rekeyed-by-value", "the key inserted into the outer map is computed from the iterated values only: equal keys collide and first/last wins in hash order", t["l"]))
                             continue
                         if is_seq_target(rty):
                             self.issues.append(("loop-inserts-into-seq", rty[:50], t["l"]))
@@ -464,6 +471,49 @@ class Flow:
                 pass
         # early exits carrying an element-derived value other than through `?`
         self.notes.append(("loop", f"{len(loop)} blocks", line0))
+
+    def elem_sides(self, elem, loop, derived):
+        """split element-derived locals into those computed from the key side (.0) and from the value side (.1) of a map item"""
+        ks, vs = set(), set()
+        changed = True
+        while changed:
+            changed = False
+            for bi in loop:
+                blk = self.body["blocks"][bi]
+                for st in blk["s"]:
+                    if len(st["d"]) != 1:
+                        continue
+                    d = st["d"][0]
+                    rv = st["rv"]
+                    places = [operand_place(o) for o in rv.get("o", [])] + ([rv["p"]] if "p" in rv else [])
+                    for p in places:
+                        if not p or p[0] not in derived:
+                            continue
+                        tf = [e for e in p[1:] if e in ("f:0:", "f:1:")]
+                        add_k = add_v = False
+                        if p[0] == elem or (p[0] not in ks and p[0] not in vs):
+                            if tf:
+                                add_k, add_v = tf[0] == "f:0:", tf[0] == "f:1:"
+                        else:
+                            add_k, add_v = p[0] in ks, p[0] in vs
+                        if add_k and d not in ks:
+                            ks.add(d)
+                            changed = True
+                        if add_v and d not in vs:
+                            vs.add(d)
+                            changed = True
+                t = blk["t"]
+                if t["t"] == "call" and len(t["d"]) == 1:
+                    d = t["d"][0]
+                    for a in t["a"]:
+                        l = operand_local(a)
+                        if l in ks and d not in ks:
+                            ks.add(d)
+                            changed = True
+                        if l in vs and d not in vs:
+                            vs.add(d)
+                            changed = True
+        return ks, vs
 
     def _succ_reach(self, bi):
         cfg = self.cfg
